@@ -221,6 +221,13 @@ Case generate(vf::Src& src, const std::string& mode)
         static const std::vector<std::string> vals = { "v", " ", "=", "a=b", "-5", "--x", ";", "\xff\xfe",
                                                        "two words", "0", "false", "\n" };
         c.value = src.coin(60) ? src.pick(vals) : bytes(1, 40, false);
+        // long values: the C library imposes no limit on the length of a value
+        if (src.coin(8))
+        {
+            static const int lens[] = { 4094, 4095, 4096, 4097, 8192, 70000 };
+            c.value = std::string(static_cast<std::size_t>(lens[src.index(6)]), static_cast<char>('a' + src.irange(0, 5)));
+            c.value[c.value.size() / 2] = '=';
+        }
         if (c.value.empty())
             c.value = "v";
         c.dflt = src.coin(50) ? "" : (src.coin(50) ? "dflt" : bytes(0, 8, false));
@@ -531,6 +538,8 @@ static std::string check_env(const Case& c, vf::Ctx& ctx)
     else if (c.state == 2)
         ::setenv(name.c_str(), c.value.c_str(), 1);
     ctx.tag(c.state == 0 ? "env:unset" : c.state == 1 ? "env:set-empty" : "env:set");
+    if (c.state == 2 && c.value.size() > 4000)
+        ctx.tag("env:long-value");
     if (c.state == 1 || (c.state == 0 && !c.dflt.empty()) ||
         (c.state == 2 && c.value.find_first_of("=- ;") != std::string::npos))
         ctx.mark_nontrivial();
